@@ -77,6 +77,7 @@ func emacsSeeds() []Seed {
 	with("menu", "\t")
 	with("menu2", "\t", "\t")
 	with("history-walk", "\x10")
+	seeds = append(seeds, Seed{Name: "hist-match/last-char", Pre: Keys("tw", "\x02")})
 	with("ctlx-prefix", "\x18")
 	with("esc-prefix", "\x1b")
 	with("quoted-insert-wait", "\x16")
@@ -118,6 +119,10 @@ func viSeeds() []Seed {
 	with("g-prefix", "g")
 	with("history-walk", "k")
 	with("search", "/")
+	with("search-back-typed", "?", "o", "n", "e")
+	with("search-fwd-typed", "/", "t", "w", "o")
+	with("search-back-long", "?", "t", "w", "o", " ", "w", "o", "r", "d", "s")
+	seeds = append(seeds, Seed{Name: "cmd/hist-match-last-char", Pre: Keys("tw", "\x1b")})
 	with("multiline", "0", "i", "(", "\r", "x", "\x1b")
 	seeds = append(seeds,
 		Seed{Name: "cmd/two-lines", Pre: Keys("(ab", "\r", "cd", "\x1b", "k")},
